@@ -290,6 +290,23 @@ AgreeCbLog(st, slots, log) ==
           (i < j /\ log[i] \in expEv /\ log[j] \in expEv)
              => exp[slotOf(log[i])].slot <= exp[slotOf(log[j])].slot
 
+\* which clause of the relation fails, and for which events (for the report)
+ExplainCbLog(st, slots, log) ==
+  LET exp == SlotEvents(st, slots)
+      expEv == {exp[i].ev : i \in DOMAIN exp}
+      slotOf(ev) == (CHOOSE i \in DOMAIN exp : exp[i].ev = ev)
+      sig(cb) == IF cb \in DOMAIN st.cb THEN <<st.cb[cb].okind, st.cb[cb].time, st.cb[cb].target>> ELSE <<"?">>
+      Unmentioned(cb) == LET r == st.cb[cb] IN r.ok /\ ~KnownSig(r.okind, r.time, r.target)
+  IN [twice   |-> {<<sig(log[i][1]), log[i][2]>> : i \in {k \in DOMAIN log : \E j \in DOMAIN log : j # k /\ log[j] = log[k]}},
+      missing |-> {<<sig(exp[i].ev[1]), exp[i].ev[2]>> : i \in {k \in DOMAIN exp : exp[k].req /\ ~Has(log, exp[k].ev)}},
+      unexpected |-> {<<sig(log[i][1]), log[i][2]>> :
+                        i \in {k \in DOMAIN log : log[k] \notin expEv
+                                 /\ ~(log[k][1] \in DOMAIN st.cb /\ Unmentioned(log[k][1]))}},
+      order   |-> {<<sig(log[i][1]), log[i][2]>> :
+                     i \in {k \in DOMAIN log : log[k] \in expEv /\
+                              \E j \in DOMAIN log : j > k /\ log[j] \in expEv
+                                   /\ exp[slotOf(log[k])].slot > exp[slotOf(log[j])].slot}}]
+
 -----------------------------------------------------------------------------
 (* Owners of properties (C12) and effects of fired events *)
 
